@@ -960,7 +960,8 @@ def plan_of(stmts, env, what):
     for i, s in enumerate(stmts[:idx]):
         if isinstance(s, ast.If) and len(s.body) == 1 and isinstance(s.body[0], ast.Return) and not s.orelse \
                 and ("empty((0," in ast.unparse(s.body[0])):
-            start = i
+            if start is None:  # the first early return of an empty matrix: the too-short gate
+                start = i
     if start is None:
         raise Unsupported("%s: too-short gate not found" % what)
     tr = Tr(PlanMode())
